@@ -77,11 +77,13 @@ const (
 	c08PayCreate = 4
 	c08PayAccept = 5
 	// x/gov messages have ids >= 100 (TxFees.gov_mtype): transactions made of them only are exempt from the gas limit
-	c08Submit = 100
+	c08Submit  = 100
+	c08Vote    = 101
+	c08Deposit = 102
 )
 
 // kinds whose fee schedule entries are observed and compared
-var c08Kinds = []int{c08Send, c08Exec, c08Assess, c08PayCreate, c08PayAccept, c08Submit}
+var c08Kinds = []int{c08Send, c08Exec, c08Assess, c08PayCreate, c08PayAccept, c08Submit, c08Vote, c08Deposit}
 
 
 var c08TypeURL = map[int]string{
@@ -91,6 +93,8 @@ var c08TypeURL = map[int]string{
 	c08PayCreate: sdk.MsgTypeURL(&exchange.MsgCreatePaymentRequest{}),
 	c08PayAccept: sdk.MsgTypeURL(&exchange.MsgAcceptPaymentRequest{}),
 	c08Submit:    sdk.MsgTypeURL(&govv1.MsgSubmitProposal{}),
+	c08Vote:      sdk.MsgTypeURL(&govv1.MsgVote{}),
+	c08Deposit:   sdk.MsgTypeURL(&govv1.MsgDeposit{}),
 }
 
 type c08Acct struct {
@@ -486,8 +490,8 @@ func c08GenConfig(r *rand.Rand) *c08Config {
 	if c.shared > 0 {
 		present = 80
 	}
-	for _, k := range []int{c08Send, c08Exec, c08Assess, c08PayCreate, c08Submit} {
-		if r.Intn(100) >= present || ((k == c08PayCreate || k == c08Submit) && r.Intn(2) == 0) {
+	for _, k := range []int{c08Send, c08Exec, c08Assess, c08PayCreate, c08Submit, c08Vote} {
+		if r.Intn(100) >= present || ((k == c08PayCreate || k == c08Submit || k == c08Vote) && r.Intn(2) == 0) {
 			continue
 		}
 		e := c08FeeEntry{kind: k}
@@ -533,6 +537,9 @@ type c08Msg struct {
 	post   sdk.Coins
 	// gov MsgSubmitProposal: the proposal's messages
 	gov []c08GovItem
+	// gov MsgVote / MsgDeposit: the proposal id, and whether the harness expects the handler to succeed
+	pid   uint64
+	govOK bool
 }
 
 func (n *c08Net) sdkMsg(m c08Msg) sdk.Msg {
@@ -548,6 +555,10 @@ func (n *c08Net) sdkMsg(m c08Msg) sdk.Msg {
 		return &exchange.MsgAcceptPaymentRequest{Payment: pm}
 	case c08Submit:
 		return n.submitMsg(m.from, m.gov)
+	case c08Vote:
+		return govv1.NewMsgVote(n.addrOf(m.from), m.pid, govv1.OptionNo, "")
+	case c08Deposit:
+		return govv1.NewMsgDeposit(n.addrOf(m.from), m.pid, sdk.NewCoins(sdk.NewInt64Coin(c08Bond, 1)))
 	case c08Exec:
 		var in []sdk.Msg
 		for _, x := range m.inner {
@@ -588,6 +599,9 @@ func (n *c08Net) routedTerms(m c08Msg, grantee int) []string {
 	case c08Submit:
 		// the deposit is in the bond denom (not observed); the proposal's messages are not routed now
 		return []string{fmt.Sprintf("(Rt %s None (AExt true []) [])", c08N(c08Submit))}
+	case c08Vote, c08Deposit:
+		// fails when the proposal does not exist (or is not in its voting / deposit period); moves bond denom only
+		return []string{fmt.Sprintf("(Rt %s None (ANop %s) [])", c08N(m.kind), coqBool(m.govOK))}
 	case c08Send:
 		return []string{fmt.Sprintf("(Rt %s None (ASend %s %s %s) [])", c08N(c08Send), c08N(m.from), c08N(m.to), c08Coins(m.coins))}
 	case c08Exec:
@@ -694,6 +708,9 @@ type c08Tx struct {
 	explicitPayer bool // the fee payer is named in the AuthInfo and is not a signer of any message
 	sigOK   bool // false: the first signer signs for a sequence two ahead
 	forced  bool // put into the block without asking CheckTx
+	hold    bool // when admitted, the proposer leaves it out of this block: it stays pending
+	recheck bool // pending from an earlier step: offered again with CheckTx(Recheck), same bytes
+	bz      []byte
 	// filled in when the transaction is signed / run
 	sigSeq              []uint64
 	gasIn               string // Coq gas_input term; "" = from the result codes
@@ -760,7 +777,7 @@ func (t *c08Tx) gasInput() string {
 	if !t.forced && !t.admitted && t.chkCode == 11 {
 		return "(GObserved GasAnte)"
 	}
-	if (t.admitted || t.forced) && !t.ok && t.code == 11 {
+	if (t.admitted && !t.hold || t.forced) && !t.ok && t.code == 11 {
 		return "(GObserved GasMsgs)"
 	}
 	return "(GObserved GasOk)"
@@ -772,7 +789,7 @@ func (t *c08Tx) btxTerm(n *c08Net) string {
 	for i, s := range t.signers {
 		sq = append(sq, fmt.Sprintf("(%s, %d)", c08N(s), t.sigSeq[i]))
 	}
-	return fmt.Sprintf("(Bt %s %s %s %d %s)", t.term(n, "GasOk"), coqList(sq), t.gasInput(), t.gasUsed, coqBool(t.forced))
+	return fmt.Sprintf("(Bt %s %s %s %d %s %s %s)", t.term(n, "GasOk"), coqList(sq), t.gasInput(), t.gasUsed, coqBool(t.forced), coqBool(t.hold), coqBool(t.recheck))
 }
 
 func (t *c08Tx) term(n *c08Net, gasOut string) string {
@@ -796,6 +813,8 @@ type c08Gen struct {
 	r   *rand.Rand
 	n   *c08Net
 	cfg *c08Config // configuration of the transaction being generated
+	// id the next submitted proposal will get, when the transaction being planned runs alone in its block (else 0)
+	nextPid uint64
 }
 
 func (g *c08Gen) otherThan(x int) int {
@@ -930,6 +949,8 @@ type c08Plan struct {
 	}
 	feeMode, balMode, grantMode, gasMode, bodyMode string
 	payWork map[string]c08Payment // the open payments if this transaction succeeds
+	holdAgain  bool               // a pending transaction the proposer holds back once more at its recheck
+	recheckWhy string             // what changed between the admission and the recheck (statistics)
 	expectAnte bool               // forced transactions: the harness expects the ante handler to pass (later signers sign for the next sequence)
 }
 
@@ -984,6 +1005,30 @@ func (g *c08Gen) plan(st *c08State, cfg *c08Config, o c08PlanOpts) *c08Plan {
 		}
 		t.msgs = append(t.msgs, m)
 		p.bodyMode = "exec-depth-3"
+	} else if r.Intn(9) == 0 {
+		// only x/gov messages: TxGasLimitDecorator lets such a transaction ask for any amount of gas; the
+		// base fee is still floor price x THAT gas limit.  Votes and deposits on a proposal that does not
+		// exist fail in the handler; an empty proposal (and a vote on it) succeeds.
+		const missing = 987_654_321
+		switch k := r.Intn(6); {
+		case k == 0:
+			t.msgs = []c08Msg{{kind: c08Vote, from: t.payer, pid: missing}}
+		case k == 1:
+			t.msgs = []c08Msg{{kind: c08Deposit, from: t.payer, pid: missing}}
+		case k == 2:
+			t.msgs = []c08Msg{{kind: c08Submit, from: t.payer}}
+		case k == 3 && g.nextPid > 0:
+			t.msgs = []c08Msg{{kind: c08Submit, from: t.payer}, {kind: c08Vote, from: t.payer, pid: g.nextPid, govOK: true}}
+		case k == 4 && g.nextPid > 0:
+			t.msgs = []c08Msg{{kind: c08Submit, from: t.payer}, {kind: c08Deposit, from: t.payer, pid: g.nextPid, govOK: true}, {kind: c08Vote, from: t.payer, pid: missing}}
+		default:
+			t.msgs = []c08Msg{{kind: c08Submit, from: t.payer}, {kind: c08Vote, from: t.payer, pid: missing}}
+		}
+		p.bodyMode = "gov-only"
+		if o.gas == 0 && r.Intn(10) < 7 {
+			o.gas = uint64(4_000_001 + r.Intn(3_000_000))
+			p.gasMode = "gov-only-above-the-gas-cap"
+		}
 	} else if o.allowPay && r.Intn(10) < 3 {
 		// x/exchange payments: the handler records a flat fee on the fee gas meter after it succeeded
 		// a good share: nothing but the handler's own fee is due beyond the base fee, and the declared
@@ -1123,7 +1168,9 @@ func (g *c08Gen) plan(st *c08State, cfg *c08Config, o c08PlanOpts) *c08Plan {
 	switch k := r.Intn(100); {
 	case o.gas > 0:
 		t.gas = o.gas
-		p.gasMode = "given"
+		if p.gasMode == "" {
+			p.gasMode = "given"
+		}
 	case k < 89:
 		t.gas = c08GasChoices[r.Intn(len(c08GasChoices))]
 		p.gasMode = "ample"
@@ -1178,6 +1225,9 @@ func (g *c08Gen) plan(st *c08State, cfg *c08Config, o c08PlanOpts) *c08Plan {
 		p.feeMode = "first-denom-only"
 	}
 
+	if p.bodyMode == "gov-only" && o.feeMode == "" && r.Intn(3) != 0 {
+		o.feeMode = "exact"
+	}
 	switch o.feeMode {
 	case "exactly-base":
 		t.fee, p.feeMode = base, "exactly-base"
